@@ -54,6 +54,8 @@ class Verifier(Engine):
             self.at_panic(f2, s2, c, fn)
 
         fr = self.run_function(fn, args, st, k, kp, 0, bind=bind, contract=c)
+        for p_, v_ in zip(fn.freevars, bind):
+            if isinstance(v_, Loc): fr.names[p_['name']] = ('addr', v_, v_.t)
         env = {'st': st, 'old': None, 'vars': {}, 'fr': fr}
         if c is not None:
             for txt, ast in c.requires:
@@ -61,10 +63,12 @@ class Verifier(Engine):
             for txt, ast in c.assumes:
                 st.assume(self.ev_bool(ast, env))
                 self.assumptions.add('%s: assume %s' % (name, txt))
+            for txt, ast in c.threadlocal:
+                st.assume(self.ev_bool(ast, env))
         self.run_ghost_event(fr, st, 'at entry')
         entry = st.copy()
         fr.entry = entry
-        fr.entry_env = {'st': entry, 'old': None, 'vars': {n: v for n, v in fr.names.items()}, 'fr': None}
+        fr.entry_env = {'st': entry, 'old': None, 'vars': {n: ((self.load_loc(entry, v[1], facts=False), v[2]) if isinstance(v[0], str) and v[0] == 'addr' and isinstance(v[1], Loc) else v) for n, v in fr.names.items()}, 'fr': None}
         # reach.entry: the precondition is satisfiable
         o = Obl('%s/reach/entry' % name, 'reach', list(st.pc), BoolVal(False), [], fn.pos, 'precondition satisfiable')
         o.expect = 'sat'
